@@ -153,6 +153,8 @@ Proof.
 Qed.
 
 (* the three predicate call sites hand the text to the compiled pattern and return its verdict unchanged; the loader
-   compiles Text.Matches with textmatch.Compile and the File() predicates with regexp.Compile and passes the result on *)
-Lemma match_sites_hold : forallb snd gen_match_sites = true /\ (7 <= List.length gen_match_sites)%nat.
+   compiles Text.Matches with textmatch.Compile and the File() predicates with regexp.Compile and passes the result on;
+   a reused RunnerState holds nothing that could keep an answer, the runner object is overwritten wholesale by every Run()
+   and the predicates read this run's context and file name *)
+Lemma match_sites_hold : forallb snd gen_match_sites = true /\ (11 <= List.length gen_match_sites)%nat.
 Proof. split; [vm_compute; reflexivity|vm_compute; lia]. Qed.
